@@ -370,6 +370,46 @@ namespace vh
       }
    };
 
+   // Action classes named by the `apply0< A... >` rule: called with the states only, so they cannot know a position and
+   // their decisions are constants (never / always).  Logged as a rule-level action call without positions.
+   template< typename... States >
+   void ract0_log( const int id, const States&... st )
+   {
+      emit( "rp", id );
+      g_out += " - - - - - -";
+      emit( "", state_depth( st... ) );
+      g_out += '\n';
+   }
+
+   template< typename Tag, int Id, bool Throw, bool ThrowStd >
+   struct ract0_void
+   {
+      template< typename... States >
+      static void apply0( States&&... st )
+      {
+         ract0_log( Id, st... );
+         if constexpr( Throw ) {
+            constexpr act_spec s{ 0, 1, ThrowStd };
+            act_throw( s, Id );
+         }
+      }
+   };
+
+   template< typename Tag, int Id, bool Veto, bool Throw, bool ThrowStd >
+   struct ract0_bool
+   {
+      template< typename... States >
+      static bool apply0( States&&... st )
+      {
+         ract0_log( Id, st... );
+         if constexpr( Throw ) {
+            constexpr act_spec s{ 0, 1, ThrowStd };
+            act_throw( s, Id );
+         }
+         return !Veto;
+      }
+   };
+
    // Observation control.  `match` brackets every Control< Rule >::match invocation,
    // including hidden internal:: rules; the hooks log what the library calls.
    // events of the second control family (change_control / control<> scoping, C13) carry a mark after the tag
